@@ -218,6 +218,7 @@ VALID_TRANSITIONS: dict[WorkflowStatus, frozenset[WorkflowStatus]] = {
         {
             WorkflowStatus.RUNNING,
             WorkflowStatus.SUCCEEDED,
+            WorkflowStatus.TERMINAL,  # the requested jump was refused (limit / unknown target)
             WorkflowStatus.CANCELED,
         }
     ),
